@@ -259,8 +259,12 @@ package updog
 //@     decreases len(e.Exprs) - $i
 
 //@ pure idxOf(k string, v string) uint64
-//@ trusted func getValueIndex(k, v) (result)
-//@   ensures result == idxOf(k, v)
+// idxOf(k, v) names the hash of the byte string k, NUL, v (idxOf_def is the definition of the name, not an assumption
+// about the code: getValueIndex has to build exactly these bytes to get its postcondition)
+//@ axiom idxOf_def: forall b []byte, k string, v string :: { sum64(b), idxOf(k, v) } len(b) == len(k) + 1 + len(v)
+//@     && (forall p idx(b) :: b[p] == ((p < len(k)) ? k[p] : ((p == len(k)) ? 0 : v[p - len(k) - 1]))) ==> sum64(b) == idxOf(k, v)
+//@ func [C01,C05] getValueIndex(k, v) (result)
+//@   ensures [C01,C05] value_index_is_the_hash_of_column_NUL_value: result == idxOf(k, v)
 
 // Structural cache keys (C03). ckey(mask, keys) names the hash of the canonical encoding of an operator mask followed
 // by the complete, ordered operand key list: 8 big-endian bytes each. The encoding is injective (fixed width, the
